@@ -60,8 +60,12 @@ def generate(rng, tier, index):
     sets = []
     for _ in range(4):
         scenario = rng.choice(["same-variable", "different-images", "different-images-same-rows",
-                               "pickled-copy", "mixed"] + (["sweep", "sweep", "sweep"] if many
-                                                           else ["sweep"]))
+                               "pickled-copy", "mixed", "second-open"]
+                              + (["sweep", "sweep", "sweep"] if many else ["sweep"]))
+        if scenario == "second-open" and wp["backend"] == "memory":
+            # (memory:// hands out ONE file object per path: two trees with their own locks
+            # cannot read one image at the same time there - the store's limitation)
+            scenario = "pickled-copy"
         if scenario == "different-images-same-rows" and n_img < 2:
             scenario = "pickled-copy"
         if scenario == "different-images" and n_img < 2:
@@ -89,6 +93,10 @@ def generate(rng, tier, index):
                 img, copy = (img0 + a) % n_img, rng.randrange(2)
             elif scenario == "pickled-copy":
                 img, copy = img0, a % 2
+            elif scenario == "second-open":
+                # copy 2 = a tree of the same product opened a second time by the same thread:
+                # loads of one tree must not be disturbed by loads of the other
+                img, copy = img0, (0, 2)[a % 2]
             else:
                 img, copy = rng.randrange(n_img), rng.randrange(2)
             im = wp["images"][img]
@@ -222,6 +230,10 @@ def execute(plan):
             else:
                 tree = w.open(use_cache=False, records_per_chunk=plan["rpc"])
             copies = {0: tree, 1: pickle.loads(pickle.dumps(tree))}
+            if any(a.get("copy") == 2 for aset in plan["sets"] for a in aset["actors"]):
+                copies[2] = w.open(records_per_chunk=plan["rpc"]) if plan.get("with_cache") \
+                    else w.open(use_cache=False, records_per_chunk=plan["rpc"])
+                bump("second-opens")
         except Exception as e:  # noqa: BLE001
             bump("setup-raised:" + type(e).__name__)
             return common.outcome(SIM, violations, keys, stats)
@@ -305,6 +317,8 @@ def execute(plan):
                     try:
                         tf = w.open(use_cache=False, records_per_chunk=plan["rpc"])
                         trees = {0: tf, 1: pickle.loads(pickle.dumps(tf))}
+                        if 2 in copies:
+                            trees[2] = w.open(use_cache=False, records_per_chunk=plan["rpc"])
                         bump("fresh-trees")
                     except Exception as e:  # noqa: BLE001
                         violations.append(Violation(ID, "load-raised", "fresh-open", {
